@@ -122,7 +122,11 @@ package ice
 // type and is paired only with the current local candidates of that type, only where findPair found
 // no pair, and never when it is TCP-passive (those are dialled, not paired).
 //@ func (*Agent).addRemoteCandidate
-//@   props C06
+//@   props C06 C18
+//@   ghostvar hostEnabled bool = false
+//@   site call containsCandidateType#1 assert C18 asks-whether-host-candidates-are-enabled: arg0 == CandidateTypeHost && arg1 == a.candidateTypes
+//@   site call containsCandidateType#1 ghost hostEnabled := result
+//@   site call addRemotePassiveTCPCandidate#1 assert C18 active-tcp-host-candidates-only-if-the-host-type-is-enabled: hostEnabled && arg1 == cand
 //@   opt nosafety
 //@   requires a.pairsByID != nil
 //@   ghostvar dup bool = false
